@@ -101,6 +101,10 @@ MANIFEST = {
     "level_text": "Proved for every input (no bound): c12_lexer_iterator + c12_lex_tiles / c12_lex_boundaries (Lexer::next "
                   "with its pending queue; the IntLiteral-dot split keeps token ranges contiguous, non-empty, non-overlapping "
                   "and on character boundaries), c12_tokens_concat (token texts of a tiling concatenate to the text), "
+                  "c12_lex_trivia_barrier / c12_lex_trivia_insertion / c12_lex_trivia_insertion_kinds (lexer part of the "
+                  "trivia-insertion clause: the post-pass keeps no state across a trivia token, the final token list of a text "
+                  "with a piece of trivia inserted at a token boundary is the old list with the trivia token inserted and the "
+                  "rest moved, and the kinds of the significant tokens - all the grammar looks at - are unchanged), "
                   "c12_sink_lossless_events / c12_sink_tokens_events (for every token list and every event stream meeting "
                   "decidable premises E1-E3 (E4), Sink::finish with rowan's builder neither panics nor loops, the text of the "
                   "tree equals the input and its leaves are exactly the lexer's tokens; forward-parent chains of any shape "
